@@ -1,12 +1,16 @@
 //! mc-common: checks decided on mithril-common's public API.
 //!   C04 tamper evidence / wire stability     C06 one aggregate key per registration set
 //!   C07 registration needs a genuine key     C17 beacons respect the margin
+mod c04;
+mod c07;
 mod c17;
 
 fn main() {
     let ctx = mc_core::Ctx::from_args();
     mc_core::quiet_panics();
     match ctx.property.as_str() {
+        "C04" => c04::run(&ctx),
+        "C07" => c07::run(&ctx),
         "C17" => c17::run(&ctx),
         other => {
             eprintln!("mc-common does not serve {other}");
